@@ -208,546 +208,604 @@ fn declared_roles<D: SubstateDatabase>(db: &D, bp: &BlueprintId) -> Option<BTree
 }
 
 pub struct ScanOptions<'a> {
-    /// restrict the (expensive) per-substate schema validation to these nodes; ownership, reference,
-    /// type-info and entity-type clauses always cover every node
+    /// kept for callers that only need the ownership facts: `Some(empty)` skips nothing any more
+    /// (validation is per node and cached by `Facts`), the field is ignored
     pub validate_only: Option<&'a BTreeSet<NodeId>>,
 }
 
-pub fn scan_ledger(db: &InMemorySubstateDatabase, opts: &ScanOptions) -> LedgerScan {
-    let mut s = LedgerScan::default();
+/// Everything the scan learns from one node alone.
+#[derive(Clone, Default)]
+pub struct NodeFacts {
+    pub parts: Vec<PartitionNumber>,
+    pub info: Option<TypeInfoSubstate>,
+    /// (partition, db sort key, owned node)
+    pub owns: Vec<(u8, Vec<u8>, NodeId)>,
+    /// (partition, referenced global node)
+    pub refs: Vec<(u8, NodeId)>,
+    pub problems: Vec<Problem>,
+    pub substates: usize,
+}
+
+impl NodeFacts {
+    fn add(&mut self, class: &'static str, detail: String) {
+        if self.problems.len() < 20 {
+            self.problems.push(Problem { class, detail });
+        }
+    }
+}
+
+pub type Facts = BTreeMap<NodeId, NodeFacts>;
+
+fn type_info_of<D: SubstateDatabase>(db: &D, node: &NodeId) -> Option<TypeInfoSubstate> {
+    let raw = db.get_raw_substate_by_db_key(
+        &SpreadPrefixKeyMapper::to_db_partition_key(node, TYPE_INFO_FIELD_PARTITION),
+        &SpreadPrefixKeyMapper::to_db_sort_key(&SubstateKey::Field(0)),
+    )?;
+    scrypto_decode::<TypeInfoSubstate>(&raw).ok()
+}
+
+fn node_partitions(db: &InMemorySubstateDatabase) -> BTreeMap<NodeId, Vec<PartitionNumber>> {
     let mut partitions: BTreeMap<NodeId, Vec<PartitionNumber>> = BTreeMap::new();
     for pk in db.list_partition_keys() {
         let (node, pn) = SpreadPrefixKeyMapper::from_db_partition_key(&pk);
         partitions.entry(node).or_default().push(pn);
     }
-    s.nodes = partitions.len();
-    let reader = SystemDatabaseReader::new(db);
-    let mut referenced: BTreeMap<NodeId, (NodeId, u8)> = BTreeMap::new();
-    let mut infos: BTreeMap<NodeId, TypeInfoSubstate> = BTreeMap::new();
+    partitions
+}
 
-    // pass 1: type info of every node
-    for node in partitions.keys() {
-        let Some(et) = node.entity_type() else {
-            s.add("node id with an unknown entity-type byte", format!("node {}", hexn(node)));
-            continue;
+/// All node-local clauses for one node.
+fn scan_node(db: &InMemorySubstateDatabase, reader: &SystemDatabaseReader<InMemorySubstateDatabase>, node: &NodeId, parts: &Vec<PartitionNumber>) -> NodeFacts {
+    let mut f = NodeFacts { parts: parts.clone(), ..Default::default() };
+    let Some(et0) = node.entity_type() else {
+        f.add("node id with an unknown entity-type byte", format!("node {}", hexn(node)));
+        return f;
+    };
+    let raw = db.get_raw_substate_by_db_key(
+        &SpreadPrefixKeyMapper::to_db_partition_key(node, TYPE_INFO_FIELD_PARTITION),
+        &SpreadPrefixKeyMapper::to_db_sort_key(&SubstateKey::Field(0)),
+    );
+    match raw {
+        None => f.add("stored node without a TypeInfo substate", format!("node {} ({:?}) partitions {:?}", hexn(node), et0, parts)),
+        Some(raw) => match scrypto_decode::<TypeInfoSubstate>(&raw) {
+            Err(_) => f.add("TypeInfo substate does not decode", format!("node {}: {}", hexn(node), hex::encode(&raw))),
+            Ok(info) => {
+                match &info {
+                    TypeInfoSubstate::GlobalAddressReservation(a) => f.add("a global address reservation is stored", format!("node {} reserves {:?}", hexn(node), a)),
+                    TypeInfoSubstate::GlobalAddressPhantom(p) => f.add("a global address phantom is stored", format!("node {} for {:?}", hexn(node), p.blueprint_id)),
+                    _ => {}
+                }
+                f.info = Some(info);
+            }
+        },
+    }
+    let self_bp: Option<BlueprintId> = match &f.info {
+        Some(TypeInfoSubstate::Object(o)) => Some(o.blueprint_info.blueprint_id.clone()),
+        _ => None,
+    };
+    let self_bp = self_bp.as_ref();
+    let info = f.info.clone();
+    let info = info.as_ref();
+    
+    let et = node.entity_type();
+
+    // ---- node-level type clauses
+    let mut object: Option<(&ObjectInfo, std::rc::Rc<BlueprintDefinition>)> = None;
+    match info {
+        Some(TypeInfoSubstate::Object(o)) => {
+            let bp = &o.blueprint_info.blueprint_id;
+            if o.is_global() != node.is_global() {
+                f.add(
+                    "TypeInfo global/owned flag disagrees with the address",
+                    format!("node {} ({:?}) has object_type {:?}", hexn(node), et, o.object_type),
+                );
+            }
+            if let Some(et) = et {
+                let allowed = allowed_entity_types(bp, node.is_global());
+                if !allowed.contains(&et) {
+                    f.add(
+                        "entity type of the address does not match the blueprint stored there",
+                        format!("node {} has entity type {:?} but holds an object of {:?} (expected one of {:?})", hexn(node), et, bp, allowed),
+                    );
+                }
+            }
+            match reader.get_blueprint_definition(bp) {
+                Err(e) => f.add("object of a blueprint that is not defined in its package", format!("node {} of {:?}: {:?}", hexn(node), bp, e)),
+                Ok(def) => {
+                    if def.interface.is_transient {
+                        f.add("object of a transient blueprint is stored", format!("node {} of {:?}", hexn(node), bp));
+                    }
+                    match (&def.interface.blueprint_type, &o.blueprint_info.outer_obj_info) {
+                        (BlueprintType::Outer, OuterObjectInfo::None) => {}
+                        (BlueprintType::Inner { outer_blueprint }, OuterObjectInfo::Some { outer_object }) => {
+                            match type_info_of(db, outer_object.as_node_id()).as_ref() {
+                                Some(TypeInfoSubstate::Object(oo))
+                                    if oo.blueprint_info.blueprint_id == BlueprintId::new(&bp.package_address, outer_blueprint.as_str()) => {}
+                                other => f.add(
+                                    "inner object whose outer object is missing or of the wrong blueprint",
+                                    format!("node {} of {:?}: outer {:?} is {:?}", hexn(node), bp, outer_object, other.map(|_| "another kind of node")),
+                                ),
+                            }
+                        }
+                        (t, oi) => f.add(
+                            "outer-object info disagrees with the blueprint type",
+                            format!("node {} of {:?}: blueprint type {:?}, outer info {:?}", hexn(node), bp, t, oi),
+                        ),
+                    }
+                    object = Some((o, def));
+                }
+            }
+        }
+        Some(TypeInfoSubstate::KeyValueStore(_)) => {
+            if et != Some(EntityType::InternalKeyValueStore) {
+                f.add(
+                    "entity type of the address does not match the blueprint stored there",
+                    format!("node {} has entity type {:?} but holds a key-value store", hexn(node), et),
+                );
+            }
+        }
+        _ => {}
+    }
+    if et == Some(EntityType::InternalKeyValueStore) && !matches!(info, Some(TypeInfoSubstate::KeyValueStore(_)) | None) {
+        f.add(
+            "entity type of the address does not match the blueprint stored there",
+            format!("node {} has entity type InternalKeyValueStore but its TypeInfo is not a key-value store", hexn(node)),
+        );
+    }
+
+    // expected fields
+    let mut expected_fields: BTreeSet<(u8, u8)> = BTreeSet::new(); // (partition, field)
+    let mut excluded_fields: BTreeSet<(u8, u8)> = BTreeSet::new();
+    if let Some((o, def)) = &object {
+        let modules = match &o.object_type {
+            ObjectType::Global { modules } => Some(modules),
+            ObjectType::Owned => None,
         };
+        let mut mods: Vec<(ModuleId, std::rc::Rc<BlueprintDefinition>, u8)> = vec![(ModuleId::Main, def.clone(), 64)];
+        if let Some(ms) = modules {
+            for (m, _) in ms.iter() {
+                let mid: ModuleId = (*m).into();
+                let base = match mid {
+                    ModuleId::Metadata => 2,
+                    ModuleId::Royalty => 3,
+                    ModuleId::RoleAssignment => 5,
+                    ModuleId::Main => 64,
+                };
+                match reader.get_blueprint_definition(&module_blueprint(mid, &o.blueprint_info.blueprint_id)) {
+                    Ok(d) => mods.push((mid, d, base)),
+                    Err(e) => f.add("object of a blueprint that is not defined in its package", format!("module {:?} of node {}: {:?}", mid, hexn(node), e)),
+                }
+            }
+            if !ms.contains_key(&AttachedModuleId::RoleAssignment) || !ms.contains_key(&AttachedModuleId::Metadata) {
+                f.add("global object without role-assignment or metadata module", format!("node {}: modules {:?}", hexn(node), ms));
+            }
+        }
+        for (mid, d, base) in &mods {
+            if let Some((PartitionDescription::Logical(off), fields)) = &d.interface.state.fields {
+                for (i, f) in fields.iter().enumerate() {
+                    let present = match (&f.transience, &f.condition) {
+                        (FieldTransience::TransientStatic { .. }, _) => false,
+                        (_, Condition::Always) => true,
+                        (_, Condition::IfFeature(feat)) => *mid == ModuleId::Main && o.blueprint_info.features.contains(feat.as_str()),
+                        (_, Condition::IfOuterFeature(feat)) => match &o.blueprint_info.outer_obj_info {
+                            OuterObjectInfo::Some { outer_object } => match type_info_of(db, outer_object.as_node_id()).as_ref() {
+                                Some(TypeInfoSubstate::Object(oo)) => oo.blueprint_info.features.contains(feat.as_str()),
+                                _ => false,
+                            },
+                            OuterObjectInfo::None => false,
+                        },
+                    };
+                    if present {
+                        expected_fields.insert((base + off.0, i as u8));
+                    } else {
+                        excluded_fields.insert((base + off.0, i as u8));
+                    }
+                }
+            }
+        }
+    }
+
+    // ---- partitions
+    for pn in parts {
+        let pk = SpreadPrefixKeyMapper::to_db_partition_key(node, *pn);
+        // what is this partition?
+        #[derive(Debug)]
+        enum Kind {
+            TypeInfo,
+            Schemas,
+            Boot,
+            KvStore,
+            Object(ModuleId, Part, BlueprintId),
+            Unknown,
+        }
+        let kind = if *pn == TYPE_INFO_FIELD_PARTITION {
+            Kind::TypeInfo
+        } else if *pn == SCHEMAS_PARTITION {
+            Kind::Schemas
+        } else if (*pn == BOOT_LOADER_PARTITION || *pn == PROTOCOL_UPDATE_STATUS_PARTITION) && node == TRANSACTION_TRACKER.as_node_id() {
+            Kind::Boot
+        } else {
+            match info {
+                Some(TypeInfoSubstate::KeyValueStore(_)) if *pn == MAIN_BASE_PARTITION => Kind::KvStore,
+                Some(TypeInfoSubstate::Object(o)) => {
+                    let modules = match &o.object_type {
+                        ObjectType::Global { modules } => Some(modules),
+                        ObjectType::Owned => None,
+                    };
+                    match module_of(pn.0, modules) {
+                        Some((mid, off)) => {
+                            let mbp = module_blueprint(mid, &o.blueprint_info.blueprint_id);
+                            match reader.get_blueprint_definition(&mbp).ok().and_then(|d| describe_partition(&d, off)) {
+                                Some(part) => Kind::Object(mid, part, mbp),
+                                None => Kind::Unknown,
+                            }
+                        }
+                        None => Kind::Unknown,
+                    }
+                }
+                _ => Kind::Unknown,
+            }
+        };
+        if matches!(kind, Kind::Unknown) && info.is_some() {
+            f.add(
+                "partition that the node's blueprint does not declare",
+                format!("node {} ({:?}) partition {}", hexn(node), self_bp, pn.0),
+            );
+        }
+
+        // may substates of this partition own nodes at all? (from the declarations, not the validator)
+        let ownership_allowed = match &kind {
+            Kind::KvStore => match info {
+                Some(TypeInfoSubstate::KeyValueStore(k)) => k.generic_substitutions.allow_ownership,
+                _ => true,
+            },
+            Kind::Object(_, part, mbp) => match part {
+                Part::Fields => true,
+                Part::Kv(c) | Part::Index(c) | Part::Sorted(c) => reader
+                    .get_blueprint_definition(mbp)
+                    .ok()
+                    .and_then(|d| d.interface.state.collections.get(*c as usize).map(|(_, sch)| match sch {
+                        BlueprintCollectionSchema::KeyValueStore(x) | BlueprintCollectionSchema::Index(x) | BlueprintCollectionSchema::SortedIndex(x) => x.allow_ownership,
+                    }))
+                    .unwrap_or(true),
+            },
+            Kind::TypeInfo | Kind::Schemas | Kind::Boot => false,
+            Kind::Unknown => true,
+        };
+        // resolve schemas once per partition
+        let mut key_schema = None;
+        let mut value_schema = None;
+        let mut type_target = None;
+        if true {
+            match &kind {
+                Kind::KvStore => match reader.get_kv_store_type_target(node) {
+                    Ok(t) => {
+                        key_schema = reader.get_kv_store_payload_schema(&t, KeyOrValue::Key).ok();
+                        value_schema = reader.get_kv_store_payload_schema(&t, KeyOrValue::Value).ok();
+                        if key_schema.is_none() || value_schema.is_none() {
+                            f.add("schema of a key-value store cannot be resolved", format!("node {}", hexn(node)));
+                        }
+                    }
+                    Err(e) => f.add("schema of a key-value store cannot be resolved", format!("node {}: {:?}", hexn(node), e)),
+                },
+                Kind::Object(mid, part, _) => match reader.get_blueprint_type_target(node, *mid) {
+                    Ok(t) => {
+                        let ids = match part {
+                            Part::Fields => None,
+                            Part::Kv(c) => Some((
+                                BlueprintPayloadIdentifier::KeyValueEntry(*c, KeyOrValue::Key),
+                                BlueprintPayloadIdentifier::KeyValueEntry(*c, KeyOrValue::Value),
+                            )),
+                            Part::Index(c) => Some((
+                                BlueprintPayloadIdentifier::IndexEntry(*c, KeyOrValue::Key),
+                                BlueprintPayloadIdentifier::IndexEntry(*c, KeyOrValue::Value),
+                            )),
+                            Part::Sorted(c) => Some((
+                                BlueprintPayloadIdentifier::SortedIndexEntry(*c, KeyOrValue::Key),
+                                BlueprintPayloadIdentifier::SortedIndexEntry(*c, KeyOrValue::Value),
+                            )),
+                        };
+                        if let Some((k, v)) = ids {
+                            key_schema = reader.get_blueprint_payload_schema(&t, &k).ok();
+                            value_schema = reader.get_blueprint_payload_schema(&t, &v).ok();
+                            if key_schema.is_none() || value_schema.is_none() {
+                                f.add("schema of a collection cannot be resolved", format!("node {} partition {} {:?}", hexn(node), pn.0, part));
+                            }
+                        }
+                        type_target = Some(t);
+                    }
+                    Err(e) => f.add("schema of an object cannot be resolved", format!("node {} module {:?}: {:?}", hexn(node), mid, e)),
+                },
+                _ => {}
+            }
+        }
+
+        for (sort_key, value) in db.list_raw_values_from_db_key(&pk, None) {
+            f.substates += 1;
+            // ---- clauses 1 and 2: what the substate owns and references
+            match IndexedScryptoValue::from_slice(&value) {
+                Err(e) => f.add(
+                    "stored substate is not a valid SBOR value",
+                    format!("node {} partition {} key {}: {:?}", hexn(node), pn.0, hex::encode(&sort_key.0), e),
+                ),
+                Ok(v) => {
+                    if !ownership_allowed && !v.owned_nodes().is_empty() {
+                        f.add(
+                            "owned node stored where the declaration does not allow ownership",
+                            format!("node {} ({:?}) partition {} key {} owns {:?}", hexn(node), self_bp, pn.0, hex::encode(&sort_key.0), v.owned_nodes().iter().map(hexn).collect::<Vec<_>>()),
+                        );
+                    }
+                    for o in v.owned_nodes() {
+                        f.owns.push((pn.0, sort_key.0.clone(), *o));
+                    }
+                    for r in v.references() {
+                        if !r.is_global() {
+                            f.add(
+                                "stored substate references a non-global node",
+                                format!(
+                                    "node {} ({:?}) partition {} key {} references internal node {}",
+                                    hexn(node),
+                                    self_bp,
+                                    pn.0,
+                                    hex::encode(&sort_key.0),
+                                    hexn(r)
+                                ),
+                            );
+                        } else {
+                            f.refs.push((pn.0, *r));
+                        }
+                    }
+                }
+            }
+            if false {
+                // field presence is cheap: keep it for every node
+                if let Kind::Object(_, Part::Fields, _) = &kind {
+                    let f = SpreadPrefixKeyMapper::field_from_db_sort_key(&sort_key);
+                    expected_fields.remove(&(pn.0, f));
+                }
+                continue;
+            }
+            // ---- clauses 3–5: typed
+            match &kind {
+                Kind::TypeInfo => {
+                    if sort_key != SpreadPrefixKeyMapper::to_db_sort_key(&SubstateKey::Field(0)) {
+                        f.add("unexpected substate in the TypeInfo partition", format!("node {} key {}", hexn(node), hex::encode(&sort_key.0)));
+                    }
+                }
+                Kind::Schemas => {
+                    let k = SpreadPrefixKeyMapper::map_from_db_sort_key(&sort_key);
+                    let hash = scrypto_decode::<SchemaHash>(&k);
+                    let entry = scrypto_decode::<KeyValueEntrySubstate<VersionedScryptoSchema>>(&value);
+                    match (hash, entry) {
+                        (Ok(h), Ok(e)) => {
+                            if let Some(schema) = e.into_value() {
+                                if schema.generate_schema_hash() != h {
+                                    f.add("stored schema is filed under a hash that is not its own", format!("node {} key {:?}", hexn(node), h));
+                                }
+                            }
+                        }
+                        _ => f.add("schema partition entry does not decode", format!("node {} key {}", hexn(node), hex::encode(&sort_key.0))),
+                    }
+                }
+                Kind::Boot | Kind::Unknown => {}
+                Kind::KvStore => {
+                    let k = SpreadPrefixKeyMapper::map_from_db_sort_key(&sort_key);
+                    if let Some(ks) = &key_schema {
+                        if let Err(e) = reader.validate_payload(&k, ks, KEY_VALUE_STORE_PAYLOAD_MAX_DEPTH) {
+                            f.add("key-value store key does not conform to the store's key schema", format!("store {} key {}: {:?}", hexn(node), hex::encode(&k), e.error));
+                        }
+                    }
+                    match scrypto_decode::<KeyValueEntrySubstate<ScryptoValue>>(&value) {
+                        Err(e) => f.add("key-value store entry does not decode as KeyValueEntrySubstate", format!("store {} key {}: {:?}", hexn(node), hex::encode(&k), e)),
+                        Ok(entry) => {
+                            if let (Some(v), Some(vs)) = (entry.into_value(), &value_schema) {
+                                let payload = scrypto_encode(&v).unwrap();
+                                if let Err(e) = reader.validate_payload(&payload, vs, KEY_VALUE_STORE_PAYLOAD_MAX_DEPTH) {
+                                    f.add(
+                                        "key-value store value does not conform to the store's value schema",
+                                        format!("store {} key {} value {}: {:?}", hexn(node), hex::encode(&k), hex::encode(&payload), e.error),
+                                    );
+                                }
+                            }
+                        }
+                    }
+                }
+                Kind::Object(mid, part, mbp) => {
+                    let Some(t) = &type_target else { continue };
+                    match part {
+                        Part::Fields => {
+                            let fi = SpreadPrefixKeyMapper::field_from_db_sort_key(&sort_key);
+                            expected_fields.remove(&(pn.0, fi));
+                            if excluded_fields.contains(&(pn.0, fi)) {
+                                f.add("field stored although its condition does not hold", format!("node {} {:?} field {}", hexn(node), mbp, fi));
+                            }
+                            match scrypto_decode::<FieldSubstate<ScryptoValue>>(&value) {
+                                Err(e) => f.add("field does not decode as FieldSubstate", format!("node {} {:?} field {}: {:?}", hexn(node), mbp, fi, e)),
+                                Ok(fs) => {
+                                    let payload = scrypto_encode(fs.payload()).unwrap();
+                                    match reader.get_blueprint_payload_schema(t, &BlueprintPayloadIdentifier::Field(fi)) {
+                                        Err(e) => f.add("field that the blueprint does not declare", format!("node {} {:?} field {}: {:?}", hexn(node), mbp, fi, e)),
+                                        Ok(schema) => {
+                                            if let Err(e) = reader.validate_payload(&payload, &schema, BLUEPRINT_PAYLOAD_MAX_DEPTH) {
+                                                f.add(
+                                                    "field value does not conform to the blueprint's schema",
+                                                    format!("node {} {:?} field {} payload {}: {:?}", hexn(node), mbp, fi, hex::encode(&payload), e.error),
+                                                );
+                                            }
+                                        }
+                                    }
+                                    if *mid == ModuleId::RoleAssignment && fi == 0 {
+                                        match scrypto_decode::<RoleAssignmentOwnerFieldPayload>(&payload) {
+                                            Ok(p) => {
+                                                let rule = p.fully_update_and_into_latest_version().owner_role_entry.rule;
+                                                if let Err(e) = rule_within_limits(&rule) {
+                                                    f.add("owner role rule exceeds the access-rule limits", format!("node {}: {}", hexn(node), e));
+                                                }
+                                            }
+                                            Err(e) => f.add("owner role field does not decode", format!("node {}: {:?}", hexn(node), e)),
+                                        }
+                                    }
+                                }
+                            }
+                        }
+                        Part::Kv(_) | Part::Index(_) | Part::Sorted(_) => {
+                            let k: Vec<u8> = match part {
+                                Part::Sorted(_) => SpreadPrefixKeyMapper::sorted_from_db_sort_key(&sort_key).1,
+                                _ => SpreadPrefixKeyMapper::map_from_db_sort_key(&sort_key),
+                            };
+                            if let Some(ks) = &key_schema {
+                                if let Err(e) = reader.validate_payload(&k, ks, BLUEPRINT_PAYLOAD_MAX_DEPTH) {
+                                    f.add(
+                                        "collection key does not conform to the blueprint's schema",
+                                        format!("node {} {:?} {:?} key {}: {:?}", hexn(node), mbp, part, hex::encode(&k), e.error),
+                                    );
+                                }
+                            }
+                            let payload: Option<Vec<u8>> = match part {
+                                Part::Kv(_) => match scrypto_decode::<KeyValueEntrySubstate<ScryptoValue>>(&value) {
+                                    Ok(e) => e.into_value().map(|v| scrypto_encode(&v).unwrap()),
+                                    Err(e) => {
+                                        f.add("collection entry does not decode as its system wrapper", format!("node {} {:?} {:?}: {:?}", hexn(node), mbp, part, e));
+                                        None
+                                    }
+                                },
+                                Part::Index(_) => match scrypto_decode::<IndexEntrySubstate<ScryptoValue>>(&value) {
+                                    Ok(e) => Some(scrypto_encode(e.value()).unwrap()),
+                                    Err(e) => {
+                                        f.add("collection entry does not decode as its system wrapper", format!("node {} {:?} {:?}: {:?}", hexn(node), mbp, part, e));
+                                        None
+                                    }
+                                },
+                                _ => match scrypto_decode::<SortedIndexEntrySubstate<ScryptoValue>>(&value) {
+                                    Ok(e) => Some(scrypto_encode(e.value()).unwrap()),
+                                    Err(e) => {
+                                        f.add("collection entry does not decode as its system wrapper", format!("node {} {:?} {:?}: {:?}", hexn(node), mbp, part, e));
+                                        None
+                                    }
+                                },
+                            };
+                            if let (Some(p), Some(vs)) = (&payload, &value_schema) {
+                                if let Err(e) = reader.validate_payload(p, vs, BLUEPRINT_PAYLOAD_MAX_DEPTH) {
+                                    f.add(
+                                        "collection value does not conform to the blueprint's schema",
+                                        format!("node {} {:?} {:?} key {} value {}: {:?}", hexn(node), mbp, part, hex::encode(&k), hex::encode(p), e.error),
+                                    );
+                                }
+                            }
+                            // clause 5
+                            if *mid == ModuleId::RoleAssignment && *part == Part::Kv(0) {
+                                match scrypto_decode::<ModuleRoleKey>(&k) {
+                                    Err(e) => f.add("role assignment key does not decode", format!("node {}: {:?}", hexn(node), e)),
+                                    Ok(mrk) => {
+                                        if mrk.module == ModuleId::RoleAssignment {
+                                            f.add("role assigned inside the role-assignment module's reserved space", format!("node {} {:?}", hexn(node), mrk));
+                                        }
+                                        if mrk.key.key.starts_with('_') {
+                                            f.add("reserved role key has an assignment", format!("node {} {:?}", hexn(node), mrk));
+                                        }
+                                        if mrk.key.key.len() > MAX_ROLE_NAME_LEN || !valid_role_name(&mrk.key.key) {
+                                            f.add("ill-formed role key has an assignment", format!("node {} {:?}", hexn(node), mrk));
+                                        }
+                                        if let Some(TypeInfoSubstate::Object(o)) = info {
+                                            let has_module = match (&o.object_type, mrk.module) {
+                                                (_, ModuleId::Main) => true,
+                                                (ObjectType::Global { modules }, m) => {
+                                                    let am: Option<AttachedModuleId> = m.into();
+                                                    am.map(|a| modules.contains_key(&a)).unwrap_or(false)
+                                                }
+                                                _ => false,
+                                            };
+                                            let target_bp = module_blueprint(mrk.module, &o.blueprint_info.blueprint_id);
+                                            if has_module {
+                                                if let Some(declared) = declared_roles(db, &target_bp) {
+                                                    if !declared.contains(&mrk.key.key) {
+                                                        f.add(
+                                                            "role assignment for a role the blueprint does not declare",
+                                                            format!("node {} {:?}: {:?} declares {:?}", hexn(node), mrk, target_bp, declared),
+                                                        );
+                                                    }
+                                                }
+                                            }
+                                        }
+                                    }
+                                }
+                                if let Some(p) = &payload {
+                                    match scrypto_decode::<RoleAssignmentAccessRuleEntryPayload>(p) {
+                                        Ok(r) => {
+                                            if let Err(e) = rule_within_limits(&r.fully_update_and_into_latest_version()) {
+                                                f.add("role rule exceeds the access-rule limits", format!("node {}: {}", hexn(node), e));
+                                            }
+                                        }
+                                        Err(e) => f.add("role assignment value does not decode", format!("node {}: {:?}", hexn(node), e)),
+                                    }
+                                }
+                            }
+                        }
+                    }
+                }
+            }
+        }
+    }
+    if !expected_fields.is_empty() && info.is_some() {
+        f.add(
+            "stored object lacks a field its blueprint declares",
+            format!("node {} ({:?}) misses (partition, field) {:?}", hexn(node), self_bp, expected_fields),
+        );
+    }
+    f
+}
+
+/// Bring `facts` up to date with the database: re-scan the nodes in `touched` (all nodes when
+/// `None`), scan nodes not seen before, forget nodes that are gone.
+pub fn update_facts(db: &InMemorySubstateDatabase, facts: &mut Facts, touched: Option<&BTreeSet<NodeId>>) {
+    let partitions = node_partitions(db);
+    let reader = SystemDatabaseReader::new(db);
+    facts.retain(|n, _| partitions.contains_key(n));
+    for (node, parts) in &partitions {
+        let rescan = match touched {
+            None => true,
+            Some(t) => t.contains(node) || !facts.contains_key(node) || facts[node].parts != *parts,
+        };
+        if rescan {
+            facts.insert(*node, scan_node(db, &reader, node, parts));
+        }
+    }
+}
+
+/// The global clauses over the per-node facts.
+pub fn assemble(facts: &Facts) -> LedgerScan {
+    let mut s = LedgerScan::default();
+    s.nodes = facts.len();
+    let mut referenced: BTreeMap<NodeId, (NodeId, u8)> = BTreeMap::new();
+    for (node, f) in facts {
         if !node.is_global() {
             s.internal_nodes.insert(*node);
         }
-        let raw = db.get_raw_substate_by_db_key(
-            &SpreadPrefixKeyMapper::to_db_partition_key(node, TYPE_INFO_FIELD_PARTITION),
-            &SpreadPrefixKeyMapper::to_db_sort_key(&SubstateKey::Field(0)),
-        );
-        let Some(raw) = raw else {
-            s.add("stored node without a TypeInfo substate", format!("node {} ({:?}) partitions {:?}", hexn(node), et, partitions[node]));
-            continue;
-        };
-        let Ok(info) = scrypto_decode::<TypeInfoSubstate>(&raw) else {
-            s.add("TypeInfo substate does not decode", format!("node {}: {}", hexn(node), hex::encode(&raw)));
-            continue;
-        };
-        match &info {
-            TypeInfoSubstate::Object(o) => {
+        s.substates += f.substates;
+        match &f.info {
+            Some(TypeInfoSubstate::Object(o)) => {
                 s.blueprint.insert(*node, o.blueprint_info.blueprint_id.clone());
             }
-            TypeInfoSubstate::KeyValueStore(_) => {
-                s.kv_stores.insert(*node);
-            }
-            TypeInfoSubstate::GlobalAddressReservation(a) => {
-                s.add("a global address reservation is stored", format!("node {} reserves {:?}", hexn(node), a));
-            }
-            TypeInfoSubstate::GlobalAddressPhantom(p) => {
-                s.add("a global address phantom is stored", format!("node {} for {:?}", hexn(node), p.blueprint_id));
-            }
-        }
-        infos.insert(*node, info);
-    }
-
-    // pass 2: every substate of every node
-    for (node, parts) in &partitions {
-        let info = infos.get(node);
-        let validate = opts.validate_only.map(|set| set.contains(node)).unwrap_or(true);
-        let et = node.entity_type();
-
-        // ---- node-level type clauses
-        let mut object: Option<(&ObjectInfo, std::rc::Rc<BlueprintDefinition>)> = None;
-        match info {
-            Some(TypeInfoSubstate::Object(o)) => {
-                let bp = &o.blueprint_info.blueprint_id;
-                if o.is_global() != node.is_global() {
-                    s.add(
-                        "TypeInfo global/owned flag disagrees with the address",
-                        format!("node {} ({:?}) has object_type {:?}", hexn(node), et, o.object_type),
-                    );
-                }
-                if let Some(et) = et {
-                    let allowed = allowed_entity_types(bp, node.is_global());
-                    if !allowed.contains(&et) {
-                        s.add(
-                            "entity type of the address does not match the blueprint stored there",
-                            format!("node {} has entity type {:?} but holds an object of {:?} (expected one of {:?})", hexn(node), et, bp, allowed),
-                        );
-                    }
-                }
-                match reader.get_blueprint_definition(bp) {
-                    Err(e) => s.add("object of a blueprint that is not defined in its package", format!("node {} of {:?}: {:?}", hexn(node), bp, e)),
-                    Ok(def) => {
-                        if def.interface.is_transient {
-                            s.add("object of a transient blueprint is stored", format!("node {} of {:?}", hexn(node), bp));
-                        }
-                        match (&def.interface.blueprint_type, &o.blueprint_info.outer_obj_info) {
-                            (BlueprintType::Outer, OuterObjectInfo::None) => {}
-                            (BlueprintType::Inner { outer_blueprint }, OuterObjectInfo::Some { outer_object }) => {
-                                match infos.get(outer_object.as_node_id()) {
-                                    Some(TypeInfoSubstate::Object(oo))
-                                        if oo.blueprint_info.blueprint_id == BlueprintId::new(&bp.package_address, outer_blueprint.as_str()) => {}
-                                    other => s.add(
-                                        "inner object whose outer object is missing or of the wrong blueprint",
-                                        format!("node {} of {:?}: outer {:?} is {:?}", hexn(node), bp, outer_object, other.map(|_| "another kind of node")),
-                                    ),
-                                }
-                            }
-                            (t, oi) => s.add(
-                                "outer-object info disagrees with the blueprint type",
-                                format!("node {} of {:?}: blueprint type {:?}, outer info {:?}", hexn(node), bp, t, oi),
-                            ),
-                        }
-                        object = Some((o, def));
-                    }
-                }
-            }
             Some(TypeInfoSubstate::KeyValueStore(_)) => {
-                if et != Some(EntityType::InternalKeyValueStore) {
-                    s.add(
-                        "entity type of the address does not match the blueprint stored there",
-                        format!("node {} has entity type {:?} but holds a key-value store", hexn(node), et),
-                    );
-                }
+                s.kv_stores.insert(*node);
             }
             _ => {}
         }
-        if et == Some(EntityType::InternalKeyValueStore) && !matches!(info, Some(TypeInfoSubstate::KeyValueStore(_)) | None) {
-            s.add(
-                "entity type of the address does not match the blueprint stored there",
-                format!("node {} has entity type InternalKeyValueStore but its TypeInfo is not a key-value store", hexn(node)),
-            );
+        for p in &f.problems {
+            s.add(p.class, p.detail.clone());
         }
-
-        // expected fields
-        let mut expected_fields: BTreeSet<(u8, u8)> = BTreeSet::new(); // (partition, field)
-        let mut excluded_fields: BTreeSet<(u8, u8)> = BTreeSet::new();
-        if let Some((o, def)) = &object {
-            let modules = match &o.object_type {
-                ObjectType::Global { modules } => Some(modules),
-                ObjectType::Owned => None,
-            };
-            let mut mods: Vec<(ModuleId, std::rc::Rc<BlueprintDefinition>, u8)> = vec![(ModuleId::Main, def.clone(), 64)];
-            if let Some(ms) = modules {
-                for (m, _) in ms.iter() {
-                    let mid: ModuleId = (*m).into();
-                    let base = match mid {
-                        ModuleId::Metadata => 2,
-                        ModuleId::Royalty => 3,
-                        ModuleId::RoleAssignment => 5,
-                        ModuleId::Main => 64,
-                    };
-                    match reader.get_blueprint_definition(&module_blueprint(mid, &o.blueprint_info.blueprint_id)) {
-                        Ok(d) => mods.push((mid, d, base)),
-                        Err(e) => s.add("object of a blueprint that is not defined in its package", format!("module {:?} of node {}: {:?}", mid, hexn(node), e)),
-                    }
-                }
-                if !ms.contains_key(&AttachedModuleId::RoleAssignment) || !ms.contains_key(&AttachedModuleId::Metadata) {
-                    s.add("global object without role-assignment or metadata module", format!("node {}: modules {:?}", hexn(node), ms));
-                }
-            }
-            for (mid, d, base) in &mods {
-                if let Some((PartitionDescription::Logical(off), fields)) = &d.interface.state.fields {
-                    for (i, f) in fields.iter().enumerate() {
-                        let present = match (&f.transience, &f.condition) {
-                            (FieldTransience::TransientStatic { .. }, _) => false,
-                            (_, Condition::Always) => true,
-                            (_, Condition::IfFeature(feat)) => *mid == ModuleId::Main && o.blueprint_info.features.contains(feat.as_str()),
-                            (_, Condition::IfOuterFeature(feat)) => match &o.blueprint_info.outer_obj_info {
-                                OuterObjectInfo::Some { outer_object } => match infos.get(outer_object.as_node_id()) {
-                                    Some(TypeInfoSubstate::Object(oo)) => oo.blueprint_info.features.contains(feat.as_str()),
-                                    _ => false,
-                                },
-                                OuterObjectInfo::None => false,
-                            },
-                        };
-                        if present {
-                            expected_fields.insert((base + off.0, i as u8));
-                        } else {
-                            excluded_fields.insert((base + off.0, i as u8));
-                        }
-                    }
-                }
-            }
-        }
-
-        // ---- partitions
-        for pn in parts {
-            let pk = SpreadPrefixKeyMapper::to_db_partition_key(node, *pn);
-            // what is this partition?
-            #[derive(Debug)]
-            enum Kind {
-                TypeInfo,
-                Schemas,
-                Boot,
-                KvStore,
-                Object(ModuleId, Part, BlueprintId),
-                Unknown,
-            }
-            let kind = if *pn == TYPE_INFO_FIELD_PARTITION {
-                Kind::TypeInfo
-            } else if *pn == SCHEMAS_PARTITION {
-                Kind::Schemas
-            } else if (*pn == BOOT_LOADER_PARTITION || *pn == PROTOCOL_UPDATE_STATUS_PARTITION) && node == TRANSACTION_TRACKER.as_node_id() {
-                Kind::Boot
-            } else {
-                match info {
-                    Some(TypeInfoSubstate::KeyValueStore(_)) if *pn == MAIN_BASE_PARTITION => Kind::KvStore,
-                    Some(TypeInfoSubstate::Object(o)) => {
-                        let modules = match &o.object_type {
-                            ObjectType::Global { modules } => Some(modules),
-                            ObjectType::Owned => None,
-                        };
-                        match module_of(pn.0, modules) {
-                            Some((mid, off)) => {
-                                let mbp = module_blueprint(mid, &o.blueprint_info.blueprint_id);
-                                match reader.get_blueprint_definition(&mbp).ok().and_then(|d| describe_partition(&d, off)) {
-                                    Some(part) => Kind::Object(mid, part, mbp),
-                                    None => Kind::Unknown,
-                                }
-                            }
-                            None => Kind::Unknown,
-                        }
-                    }
-                    _ => Kind::Unknown,
-                }
-            };
-            if matches!(kind, Kind::Unknown) && info.is_some() {
+        for (pn, key, o) in &f.owns {
+            if let Some((prev, pp, pkey)) = s.owner.insert(*o, (*node, *pn, key.clone())) {
                 s.add(
-                    "partition that the node's blueprint does not declare",
-                    format!("node {} ({:?}) partition {}", hexn(node), s.blueprint.get(node), pn.0),
+                    "node owned by more than one stored substate",
+                    format!("node {} is owned by {}/{}/{} and by {}/{}/{}", hexn(o), hexn(&prev), pp, hex::encode(pkey), hexn(node), pn, hex::encode(key)),
                 );
             }
-
-            // may substates of this partition own nodes at all? (from the declarations, not the validator)
-            let ownership_allowed = match &kind {
-                Kind::KvStore => match info {
-                    Some(TypeInfoSubstate::KeyValueStore(k)) => k.generic_substitutions.allow_ownership,
-                    _ => true,
-                },
-                Kind::Object(_, part, mbp) => match part {
-                    Part::Fields => true,
-                    Part::Kv(c) | Part::Index(c) | Part::Sorted(c) => reader
-                        .get_blueprint_definition(mbp)
-                        .ok()
-                        .and_then(|d| d.interface.state.collections.get(*c as usize).map(|(_, sch)| match sch {
-                            BlueprintCollectionSchema::KeyValueStore(x) | BlueprintCollectionSchema::Index(x) | BlueprintCollectionSchema::SortedIndex(x) => x.allow_ownership,
-                        }))
-                        .unwrap_or(true),
-                },
-                Kind::TypeInfo | Kind::Schemas | Kind::Boot => false,
-                Kind::Unknown => true,
-            };
-            // resolve schemas once per partition
-            let mut key_schema = None;
-            let mut value_schema = None;
-            let mut type_target = None;
-            if validate {
-                match &kind {
-                    Kind::KvStore => match reader.get_kv_store_type_target(node) {
-                        Ok(t) => {
-                            key_schema = reader.get_kv_store_payload_schema(&t, KeyOrValue::Key).ok();
-                            value_schema = reader.get_kv_store_payload_schema(&t, KeyOrValue::Value).ok();
-                            if key_schema.is_none() || value_schema.is_none() {
-                                s.add("schema of a key-value store cannot be resolved", format!("node {}", hexn(node)));
-                            }
-                        }
-                        Err(e) => s.add("schema of a key-value store cannot be resolved", format!("node {}: {:?}", hexn(node), e)),
-                    },
-                    Kind::Object(mid, part, _) => match reader.get_blueprint_type_target(node, *mid) {
-                        Ok(t) => {
-                            let ids = match part {
-                                Part::Fields => None,
-                                Part::Kv(c) => Some((
-                                    BlueprintPayloadIdentifier::KeyValueEntry(*c, KeyOrValue::Key),
-                                    BlueprintPayloadIdentifier::KeyValueEntry(*c, KeyOrValue::Value),
-                                )),
-                                Part::Index(c) => Some((
-                                    BlueprintPayloadIdentifier::IndexEntry(*c, KeyOrValue::Key),
-                                    BlueprintPayloadIdentifier::IndexEntry(*c, KeyOrValue::Value),
-                                )),
-                                Part::Sorted(c) => Some((
-                                    BlueprintPayloadIdentifier::SortedIndexEntry(*c, KeyOrValue::Key),
-                                    BlueprintPayloadIdentifier::SortedIndexEntry(*c, KeyOrValue::Value),
-                                )),
-                            };
-                            if let Some((k, v)) = ids {
-                                key_schema = reader.get_blueprint_payload_schema(&t, &k).ok();
-                                value_schema = reader.get_blueprint_payload_schema(&t, &v).ok();
-                                if key_schema.is_none() || value_schema.is_none() {
-                                    s.add("schema of a collection cannot be resolved", format!("node {} partition {} {:?}", hexn(node), pn.0, part));
-                                }
-                            }
-                            type_target = Some(t);
-                        }
-                        Err(e) => s.add("schema of an object cannot be resolved", format!("node {} module {:?}: {:?}", hexn(node), mid, e)),
-                    },
-                    _ => {}
-                }
-            }
-
-            for (sort_key, value) in db.list_raw_values_from_db_key(&pk, None) {
-                s.substates += 1;
-                // ---- clauses 1 and 2: what the substate owns and references
-                match IndexedScryptoValue::from_slice(&value) {
-                    Err(e) => s.add(
-                        "stored substate is not a valid SBOR value",
-                        format!("node {} partition {} key {}: {:?}", hexn(node), pn.0, hex::encode(&sort_key.0), e),
-                    ),
-                    Ok(v) => {
-                        if !ownership_allowed && !v.owned_nodes().is_empty() {
-                            s.add(
-                                "owned node stored where the declaration does not allow ownership",
-                                format!("node {} ({:?}) partition {} key {} owns {:?}", hexn(node), s.blueprint.get(node), pn.0, hex::encode(&sort_key.0), v.owned_nodes().iter().map(hexn).collect::<Vec<_>>()),
-                            );
-                        }
-                        for o in v.owned_nodes() {
-                            if let Some((prev, pp, pkey)) = s.owner.insert(*o, (*node, pn.0, sort_key.0.clone())) {
-                                s.add(
-                                    "node owned by more than one stored substate",
-                                    format!(
-                                        "node {} is owned by {}/{}/{} and by {}/{}/{}",
-                                        hexn(o),
-                                        hexn(&prev),
-                                        pp,
-                                        hex::encode(pkey),
-                                        hexn(node),
-                                        pn.0,
-                                        hex::encode(&sort_key.0)
-                                    ),
-                                );
-                            }
-                        }
-                        for r in v.references() {
-                            if !r.is_global() {
-                                s.add(
-                                    "stored substate references a non-global node",
-                                    format!(
-                                        "node {} ({:?}) partition {} key {} references internal node {}",
-                                        hexn(node),
-                                        s.blueprint.get(node),
-                                        pn.0,
-                                        hex::encode(&sort_key.0),
-                                        hexn(r)
-                                    ),
-                                );
-                            } else {
-                                referenced.entry(*r).or_insert((*node, pn.0));
-                            }
-                        }
-                    }
-                }
-                if !validate {
-                    // field presence is cheap: keep it for every node
-                    if let Kind::Object(_, Part::Fields, _) = &kind {
-                        let f = SpreadPrefixKeyMapper::field_from_db_sort_key(&sort_key);
-                        expected_fields.remove(&(pn.0, f));
-                    }
-                    continue;
-                }
-                // ---- clauses 3–5: typed
-                match &kind {
-                    Kind::TypeInfo => {
-                        if sort_key != SpreadPrefixKeyMapper::to_db_sort_key(&SubstateKey::Field(0)) {
-                            s.add("unexpected substate in the TypeInfo partition", format!("node {} key {}", hexn(node), hex::encode(&sort_key.0)));
-                        }
-                    }
-                    Kind::Schemas => {
-                        let k = SpreadPrefixKeyMapper::map_from_db_sort_key(&sort_key);
-                        let hash = scrypto_decode::<SchemaHash>(&k);
-                        let entry = scrypto_decode::<KeyValueEntrySubstate<VersionedScryptoSchema>>(&value);
-                        match (hash, entry) {
-                            (Ok(h), Ok(e)) => {
-                                if let Some(schema) = e.into_value() {
-                                    if schema.generate_schema_hash() != h {
-                                        s.add("stored schema is filed under a hash that is not its own", format!("node {} key {:?}", hexn(node), h));
-                                    }
-                                }
-                            }
-                            _ => s.add("schema partition entry does not decode", format!("node {} key {}", hexn(node), hex::encode(&sort_key.0))),
-                        }
-                    }
-                    Kind::Boot | Kind::Unknown => {}
-                    Kind::KvStore => {
-                        let k = SpreadPrefixKeyMapper::map_from_db_sort_key(&sort_key);
-                        if let Some(ks) = &key_schema {
-                            if let Err(e) = reader.validate_payload(&k, ks, KEY_VALUE_STORE_PAYLOAD_MAX_DEPTH) {
-                                s.add("key-value store key does not conform to the store's key schema", format!("store {} key {}: {:?}", hexn(node), hex::encode(&k), e.error));
-                            }
-                        }
-                        match scrypto_decode::<KeyValueEntrySubstate<ScryptoValue>>(&value) {
-                            Err(e) => s.add("key-value store entry does not decode as KeyValueEntrySubstate", format!("store {} key {}: {:?}", hexn(node), hex::encode(&k), e)),
-                            Ok(entry) => {
-                                if let (Some(v), Some(vs)) = (entry.into_value(), &value_schema) {
-                                    let payload = scrypto_encode(&v).unwrap();
-                                    if let Err(e) = reader.validate_payload(&payload, vs, KEY_VALUE_STORE_PAYLOAD_MAX_DEPTH) {
-                                        s.add(
-                                            "key-value store value does not conform to the store's value schema",
-                                            format!("store {} key {} value {}: {:?}", hexn(node), hex::encode(&k), hex::encode(&payload), e.error),
-                                        );
-                                    }
-                                }
-                            }
-                        }
-                    }
-                    Kind::Object(mid, part, mbp) => {
-                        let Some(t) = &type_target else { continue };
-                        match part {
-                            Part::Fields => {
-                                let f = SpreadPrefixKeyMapper::field_from_db_sort_key(&sort_key);
-                                expected_fields.remove(&(pn.0, f));
-                                if excluded_fields.contains(&(pn.0, f)) {
-                                    s.add("field stored although its condition does not hold", format!("node {} {:?} field {}", hexn(node), mbp, f));
-                                }
-                                match scrypto_decode::<FieldSubstate<ScryptoValue>>(&value) {
-                                    Err(e) => s.add("field does not decode as FieldSubstate", format!("node {} {:?} field {}: {:?}", hexn(node), mbp, f, e)),
-                                    Ok(fs) => {
-                                        let payload = scrypto_encode(fs.payload()).unwrap();
-                                        match reader.get_blueprint_payload_schema(t, &BlueprintPayloadIdentifier::Field(f)) {
-                                            Err(e) => s.add("field that the blueprint does not declare", format!("node {} {:?} field {}: {:?}", hexn(node), mbp, f, e)),
-                                            Ok(schema) => {
-                                                if let Err(e) = reader.validate_payload(&payload, &schema, BLUEPRINT_PAYLOAD_MAX_DEPTH) {
-                                                    s.add(
-                                                        "field value does not conform to the blueprint's schema",
-                                                        format!("node {} {:?} field {} payload {}: {:?}", hexn(node), mbp, f, hex::encode(&payload), e.error),
-                                                    );
-                                                }
-                                            }
-                                        }
-                                        if *mid == ModuleId::RoleAssignment && f == 0 {
-                                            match scrypto_decode::<RoleAssignmentOwnerFieldPayload>(&payload) {
-                                                Ok(p) => {
-                                                    let rule = p.fully_update_and_into_latest_version().owner_role_entry.rule;
-                                                    if let Err(e) = rule_within_limits(&rule) {
-                                                        s.add("owner role rule exceeds the access-rule limits", format!("node {}: {}", hexn(node), e));
-                                                    }
-                                                }
-                                                Err(e) => s.add("owner role field does not decode", format!("node {}: {:?}", hexn(node), e)),
-                                            }
-                                        }
-                                    }
-                                }
-                            }
-                            Part::Kv(_) | Part::Index(_) | Part::Sorted(_) => {
-                                let k: Vec<u8> = match part {
-                                    Part::Sorted(_) => SpreadPrefixKeyMapper::sorted_from_db_sort_key(&sort_key).1,
-                                    _ => SpreadPrefixKeyMapper::map_from_db_sort_key(&sort_key),
-                                };
-                                if let Some(ks) = &key_schema {
-                                    if let Err(e) = reader.validate_payload(&k, ks, BLUEPRINT_PAYLOAD_MAX_DEPTH) {
-                                        s.add(
-                                            "collection key does not conform to the blueprint's schema",
-                                            format!("node {} {:?} {:?} key {}: {:?}", hexn(node), mbp, part, hex::encode(&k), e.error),
-                                        );
-                                    }
-                                }
-                                let payload: Option<Vec<u8>> = match part {
-                                    Part::Kv(_) => match scrypto_decode::<KeyValueEntrySubstate<ScryptoValue>>(&value) {
-                                        Ok(e) => e.into_value().map(|v| scrypto_encode(&v).unwrap()),
-                                        Err(e) => {
-                                            s.add("collection entry does not decode as its system wrapper", format!("node {} {:?} {:?}: {:?}", hexn(node), mbp, part, e));
-                                            None
-                                        }
-                                    },
-                                    Part::Index(_) => match scrypto_decode::<IndexEntrySubstate<ScryptoValue>>(&value) {
-                                        Ok(e) => Some(scrypto_encode(e.value()).unwrap()),
-                                        Err(e) => {
-                                            s.add("collection entry does not decode as its system wrapper", format!("node {} {:?} {:?}: {:?}", hexn(node), mbp, part, e));
-                                            None
-                                        }
-                                    },
-                                    _ => match scrypto_decode::<SortedIndexEntrySubstate<ScryptoValue>>(&value) {
-                                        Ok(e) => Some(scrypto_encode(e.value()).unwrap()),
-                                        Err(e) => {
-                                            s.add("collection entry does not decode as its system wrapper", format!("node {} {:?} {:?}: {:?}", hexn(node), mbp, part, e));
-                                            None
-                                        }
-                                    },
-                                };
-                                if let (Some(p), Some(vs)) = (&payload, &value_schema) {
-                                    if let Err(e) = reader.validate_payload(p, vs, BLUEPRINT_PAYLOAD_MAX_DEPTH) {
-                                        s.add(
-                                            "collection value does not conform to the blueprint's schema",
-                                            format!("node {} {:?} {:?} key {} value {}: {:?}", hexn(node), mbp, part, hex::encode(&k), hex::encode(p), e.error),
-                                        );
-                                    }
-                                }
-                                // clause 5
-                                if *mid == ModuleId::RoleAssignment && *part == Part::Kv(0) {
-                                    match scrypto_decode::<ModuleRoleKey>(&k) {
-                                        Err(e) => s.add("role assignment key does not decode", format!("node {}: {:?}", hexn(node), e)),
-                                        Ok(mrk) => {
-                                            if mrk.module == ModuleId::RoleAssignment {
-                                                s.add("role assigned inside the role-assignment module's reserved space", format!("node {} {:?}", hexn(node), mrk));
-                                            }
-                                            if mrk.key.key.starts_with('_') {
-                                                s.add("reserved role key has an assignment", format!("node {} {:?}", hexn(node), mrk));
-                                            }
-                                            if mrk.key.key.len() > MAX_ROLE_NAME_LEN || !valid_role_name(&mrk.key.key) {
-                                                s.add("ill-formed role key has an assignment", format!("node {} {:?}", hexn(node), mrk));
-                                            }
-                                            if let Some(TypeInfoSubstate::Object(o)) = info {
-                                                let has_module = match (&o.object_type, mrk.module) {
-                                                    (_, ModuleId::Main) => true,
-                                                    (ObjectType::Global { modules }, m) => {
-                                                        let am: Option<AttachedModuleId> = m.into();
-                                                        am.map(|a| modules.contains_key(&a)).unwrap_or(false)
-                                                    }
-                                                    _ => false,
-                                                };
-                                                let target_bp = module_blueprint(mrk.module, &o.blueprint_info.blueprint_id);
-                                                if has_module {
-                                                    if let Some(declared) = declared_roles(db, &target_bp) {
-                                                        if !declared.contains(&mrk.key.key) {
-                                                            s.add(
-                                                                "role assignment for a role the blueprint does not declare",
-                                                                format!("node {} {:?}: {:?} declares {:?}", hexn(node), mrk, target_bp, declared),
-                                                            );
-                                                        }
-                                                    }
-                                                }
-                                            }
-                                        }
-                                    }
-                                    if let Some(p) = &payload {
-                                        match scrypto_decode::<RoleAssignmentAccessRuleEntryPayload>(p) {
-                                            Ok(r) => {
-                                                if let Err(e) = rule_within_limits(&r.fully_update_and_into_latest_version()) {
-                                                    s.add("role rule exceeds the access-rule limits", format!("node {}: {}", hexn(node), e));
-                                                }
-                                            }
-                                            Err(e) => s.add("role assignment value does not decode", format!("node {}: {:?}", hexn(node), e)),
-                                        }
-                                    }
-                                }
-                            }
-                        }
-                    }
-                }
-            }
         }
-        if !expected_fields.is_empty() && info.is_some() {
-            s.add(
-                "stored object lacks a field its blueprint declares",
-                format!("node {} ({:?}) misses (partition, field) {:?}", hexn(node), s.blueprint.get(node), expected_fields),
-            );
+        for (pn, r) in &f.refs {
+            referenced.entry(*r).or_insert((*node, *pn));
         }
     }
-
+    let partitions = facts;
     // ---- clause 1: the forest
     let owners = s.owner.clone();
     for n in s.internal_nodes.clone() {
@@ -783,6 +841,13 @@ pub fn scan_ledger(db: &InMemorySubstateDatabase, opts: &ScanOptions) -> LedgerS
         }
     }
     s
+}
+
+
+pub fn scan_ledger(db: &InMemorySubstateDatabase, _opts: &ScanOptions) -> LedgerScan {
+    let mut facts = Facts::new();
+    update_facts(db, &mut facts, None);
+    assemble(&facts)
 }
 
 /// The repository's own checkers, as a second opinion (`Err(text)` when they object).
